@@ -83,6 +83,8 @@ func (p *Program) fingerprint(d *DeclSite) AnchorFP {
 
 // resolveRenamed finds the current declaration of a function the pinned tree knew as `full`.
 func (p *Program) resolveRenamed(full string) *DeclSite {
+	p.renameMu.Lock()
+	defer p.renameMu.Unlock()
 	if p.renamed == nil {
 		p.renamed = map[string]*DeclSite{}
 	}
@@ -189,7 +191,7 @@ func (p *Program) CurrentName(full string) string {
 // PinnedName maps the full name of a function of the current tree back to the name the pinned tree
 // knew it under (identity when it was not renamed). Tables of reasons are keyed by pinned names.
 func (p *Program) PinnedName(current string) string {
-	if p.pinnedOf == nil {
+	p.pinOnce.Do(func() {
 		p.pinnedOf = map[string]string{}
 		cur := map[string]bool{}
 		for _, d := range p.FuncDecls() {
@@ -207,7 +209,7 @@ func (p *Program) PinnedName(current string) string {
 				p.pinnedOf[DeclName(d.Pkg, d.Decl)] = name
 			}
 		}
-	}
+	})
 	suffix := ""
 	base := current
 	if i := strings.Index(base, "$"); i >= 0 {
